@@ -4,6 +4,8 @@ import Dbg.Driver.C10
 import Dbg.Driver.C11
 import Dbg.Driver.C14
 import Dbg.Driver.C15
+import Dbg.Driver.C17
+import Dbg.Driver.C13
 /-! `dbgdriver`: one request per line on stdin (`<prop> <op> <args…>\t<implementation answer>`),
     one line per request on stdout (`<model answer>\t<verdict of holdsCxx on the implementation answer>`). -/
 open Drv
@@ -16,6 +18,9 @@ def dispatch (prop : String) (args : List String) (impl : String) : R Ans :=
   | "C11" => C11.handle args impl
   | "C14" => C14.handle args impl
   | "C15" => C15.handle args impl
+  | "C17" => C17.handle args impl
+  | "C13" => C13.handle args impl
+  | "C12" => (match args with | "exts" :: _ => C13.handleExts args impl | _ => C13.handle args impl)
   | _ => throw s!"unknown-property:{prop}"
 
 def answer (line : String) : String :=
